@@ -342,6 +342,26 @@ type NativeOutcome struct {
 	Observes []ObsVal `json:"observes"`
 }
 
+// libraryPanic reports whether the innermost non-runtime frame of a recovered
+// panic lies in the library under test and not in a harness file.
+func libraryPanic(stack string) bool {
+	i := strings.Index(stack, "panic(")
+	if i < 0 {
+		return false
+	}
+	for _, line := range strings.Split(stack[i:], "\n") {
+		line = strings.TrimSpace(line)
+		if !strings.Contains(line, ".go:") {
+			continue
+		}
+		if strings.Contains(line, "/runtime/") || strings.Contains(line, "/go/src/") || strings.Contains(line, "/lib/go") || strings.Contains(line, "/veriftools/go") {
+			continue
+		}
+		return !strings.Contains(line, "zz_vp_")
+	}
+	return false
+}
+
 // runNative replays the given vectors against the native build of repo.
 func runNative(repo, hdir string, reps []Replay) (map[string]NativeOutcome, string, error) {
 	out := map[string]NativeOutcome{}
@@ -733,7 +753,11 @@ func main() {
 				case "unwind":
 					repro = o.Status == "hang"
 				case "assert":
-					repro = (o.Status == "assert" && o.Name == p.rep.Site) || o.Status == "hang"
+					// the engine models slice capacities after growth loosely, so an
+					// input it reports for an assertion may natively fail earlier with
+					// a run-time panic inside the library: still a failure of the real
+					// code on an input of the property's domain
+					repro = (o.Status == "assert" && o.Name == p.rep.Site) || o.Status == "hang" || (o.Status == "panic" && libraryPanic(o.Stack))
 				case "panic":
 					repro = o.Status == "panic" || o.Status == "hang"
 				case "alloc", "footprint":
